@@ -27,6 +27,7 @@ empty @is_you(int n, int k) {{
     write(a.length); write(' ');
     for (int i = 0; i < a.length; i += 1) {{ a[i] = {fill}; }}
     if (k >= 0 and k < a.length) {{ a[k] = a[(k + 1) % a.length]; }}
+    if (k == 7 or k == 40) {{ a[k] = {fill.replace('i', 'k')}; write('!'); }}
     {show}
     write(guard1); write(before); write(after); write(canary);
     writeln();
@@ -55,6 +56,29 @@ empty @is_you(int n, int k) {
     a[1] += alloc(3);
     show(a);
     writeln(depth);
+}
+'''
+
+
+def literal_temps():
+    """array literals whose elements need frame temporaries or calls, each in a function of its own so that this
+    statement determines the function's maximum frame (the array must be counted while its elements are evaluated)"""
+    return UTIL + r'''
+int g = 300;
+int two(int a, int b) { return a * 2 + b; }
+int three(int a, int b, int c) { return a + b - c; }
+empty take(const int[] a) { show(a); }
+empty takeb(const byte[] a, int pad) { show(a); write(pad); }
+empty t1(int n) { take([9, g - (n * 2 + 1), g - g % (n + 3)]); }
+empty t2(int n) { int[] a = [g + two(n, 1) * two(1, n), g - three(n, n, 1)]; show(a); }
+empty t3(int n) { bool[] b = [g > two(n, 2), g - n > three(1, 2, n), true, g == g - n]; show(b); }
+empty t4(int n) { takeb([(g - n * 2) is byte, (g + two(n, 1)) is byte, 'q'], g + n); }
+empty t5(int n) { byte[] c = [(g - (g - n)) is byte, (g / (n + 2)) is byte]; show(c); }
+empty t6(int n) { take([g - three(g - n, g + n, two(g - 1, n)), 1, 2, 3, 4, 5, 6, 7]); }
+empty @is_you(int n, int k) {
+    if (k == 1) { t1(n); } if (k == 2) { t2(n); } if (k == 3) { t3(n); }
+    if (k == 4) { t4(n); } if (k == 5) { t5(n); } if (k == 6) { t6(n); }
+    writeln(g);
 }
 '''
 
@@ -136,6 +160,9 @@ def cases(seed, count):
             out.append(('literal-calls', literal_with_calls(), [str(n), str(k)]))
     for n in (0, 1, 3, 10, 40):
         out.append(('recursion', recursion_program(), [str(n), str(r.randint(-5, 5))]))
+    for n in (0, 5):
+        for k in (1, 2, 3, 4, 5, 6):
+            out.append(('literal-temps', literal_temps(), [str(n), str(k)]))
     for n in (0, 7, -1, 9999, -32768, 32767, 12345):
         out.append(('stdlib', stdlib_program(), [str(n), str(r.choice([0, 7, 8, 19]))]))
     for n in (0, 3, 8, 22):
